@@ -441,4 +441,21 @@ theorem validUTF8_iff (bs : Bytes) : validUTF8 bs = true ↔ SpecUtf8 bs := by
   · rintro ⟨cps, hc, rfl⟩
     exact validUTF8_complete cps hc
 
+/-- printable ASCII is an MQTT string (used for the non-vacuity examples) -/
+theorem validUTF8_ascii (bs : Bytes) (h : ∀ b ∈ bs, 0x20 ≤ b ∧ b < 0x7F) : validUTF8 bs = true := by
+  have e : utf8Of bs = bs := by
+    induction bs with
+    | nil => rfl
+    | cons b t ih =>
+      have hb := h b (by simp)
+      have : encodeCp b = [b] := by unfold encodeCp; rw [if_pos (by omega)]
+      simp only [utf8Of, List.flatMap_cons, this, List.cons_append, List.nil_append]
+      congr 1
+      exact ih (fun x hx => h x (by simp [hx]))
+  rw [← e]
+  apply validUTF8_complete
+  intro c hc
+  have := h c hc
+  exact ⟨Or.inl (by omega), by omega, by omega⟩
+
 end GmqttVerif.Codec
